@@ -17,6 +17,15 @@ TraceNext ==
           \/ IsCrossOp(e)  /\ CrossStep(e)  /\ UNCHANGED <<allvars, ctx>>
           \/ IsRandomOp(e) /\ RandomStep(e) /\ UNCHANGED <<dvars, rvars, uvars, svars, zvars, ctx>>
           \/ IsHelperOp(e) /\ HelperStep(e) /\ UNCHANGED <<allvars, ctx>>
+          \* util.reset: every package back to its initial state (configuration and receiver)
+          \/ /\ e.op = "util.reset"
+             /\ dMax' = 10 /\ dRecv' = ZeroDate /\ dRet' = [k |-> "unit"] /\ UNCHANGED <<dFilt, dVars>>
+             /\ rMax' = 128 /\ rFmt' = 0 /\ rRecv' = 0 /\ rRet' = [k |-> "unit"]
+             /\ sMax' = 1024 /\ sRecv' = ZeroVer /\ sRet' = [k |-> "unit"] /\ UNCHANGED sUniv
+             /\ zSw' = [dmtu |-> FALSE, dmjs |-> FALSE, dmjo |-> FALSE] /\ zRule' = 6 /\ zMax' = 128 /\ zKeys' = 16
+             /\ zRecv' = BZero /\ zRet' = [k |-> "unit"]
+             /\ uMax' = 45 /\ uRecv' = ZeroID /\ uRet' = [k |-> "unit"]
+             /\ UNCHANGED <<qvars, ctx>> /\ Note(<<>>)
      /\ l' = l + 1
   \/ Finish /\ UNCHANGED allvars
 
